@@ -29,7 +29,13 @@ TypeDiff == UNION {UNION {{Pr(v, With(v, "type", Str(t2))), Pr(With(v, "type", S
 NilLikes == {NilItem, Iri(""), Iri("-"), [k |-> "nil", as |-> "Object"], [k |-> "nil", as |-> "Activity"], [k |-> "list", e |-> <<>>, nilslice |-> TRUE]}
 NonNils == {I1, Note1, Person1, Untyped, Link1, ListOf(<<I1>>), BaseV("Activity", 5), BaseV("Collection", 5)}
 NilFam == {Pr(a, b) : a \in NilLikes, b \in NilLikes} \cup {Pr(a, b) : a \in NilLikes, b \in NonNils} \cup {Pr(b, a) : a \in NilLikes, b \in NonNils}
-AllPairs == Refl \cup OddRefl \cup QueryPairs \cup Mut \cup IdDiff \cup TypeDiff \cup NilFam
+\* the same laws on values with EVERY property set (a later comparison must not overwrite an earlier verdict)
+FullVals == {c.v : c \in Full(FALSE)}
+FullId == UNION {{Pr(v, With(v, "id", Str(v.p.id.s \o "/other"))), Pr(With(v, "id", Str(v.p.id.s \o "/other")), v)} : v \in {w \in FullVals : w.g # "Link"}}
+FullMut == UNION {UNION {LET k == Kind(v.g, t) o == OtherVal(k, v.p[t]) IN
+                         IF o = v.p[t] THEN {} ELSE {Pr(v, With(v, t, o)), Pr(With(v, t, o), v)}
+                         : t \in (MutTerms(v.g) \ {"id", "type"}) \cap DOMAIN v.p} : v \in FullVals}
+AllPairs == FullId \cup FullMut \cup Refl \cup OddRefl \cup QueryPairs \cup Mut \cup IdDiff \cup TypeDiff \cup NilFam
 GenInit == x = NilItem /\ y = NilItem /\ res = FALSE /\ phase = "gen"
 GenNext == FALSE /\ UNCHANGED vars
 ASSUME ndJsonSerialize("c09_pairs.ndjson", SetToSeq(AllPairs))
